@@ -542,10 +542,12 @@ def main(argv=None):
             with ProcessPoolExecutor(max_workers=jobs, mp_context=ctx) as ex:
                 futs = [ex.submit(_work, t) for t in tasks]
                 nfail = 0
+                known0 = load_known()
                 for fu in as_completed(futs, timeout=7 * 3600):
                     lo, agg = fu.result()
                     results[lo] = agg
-                    nfail += len(agg["fail"])
+                    # recorded known findings are not evidence of a new violation: they never end a run early
+                    nfail += sum(1 for f in agg["fail"] if match_known(known0, check_id, f[1]) is None)
                     nhang = sum(1 for f in agg["fail"] if f[1] and f[1].startswith("liveness: run did not finish"))
                     if nfail >= 300 or nhang >= 3:
                         # plenty of evidence of a violation: do not burn the rest of the budget
